@@ -658,10 +658,12 @@ def run(rep, tier):
     known_hits = []
 
     def record(failure):
+        # Report.finish matches failing inputs against known_findings.json and prints the KNOWN-FINDING lines;
+        # the hits are only counted here (coverage)
         for k in KNOWN:
             if common.finding_matches(k, failure):
-                known_hits.append((k, failure))
-                return
+                known_hits.append((k, dict(failure)))
+                break
         rep.fail(failure.pop("kind"), failure.pop("what"), **failure)
 
     # --- store tie
@@ -764,13 +766,7 @@ def run(rep, tier):
     if n_branching < 2:
         rep.fail("broken-tie", f"only {n_branching} branching programs explored by the L2 sibling check", case={})
 
-    seen = set()
-    for k, f in known_hits:
-        if k["id"] not in seen:
-            seen.add(k["id"])
-            print(f"KNOWN-FINDING: property={PID} {k['id']}: {k['what']}")
-            print(f"  failing input: {f['what'][:700]}")
-    rep.coverage["known_findings_hit_module"] = sorted(seen)
+    rep.coverage["known_findings_hit_module"] = sorted({k["id"] for k, _f in known_hits})
     distinct_cases = {}
     for _k, f in known_hits:
         distinct_cases.setdefault((f["case"]["spec"]["id"], f["sig"].get("interrupt")), f["case"])
